@@ -160,6 +160,28 @@ def gen(rng):
     return "Option<(&str, usize, usize)>", "match konst::Parser::new(%s).%s { Ok(p) => Some((p.remainder(), p.start_offset(), p.end_offset())), Err(_) => None }" % (sl, op), not s.isascii()
 
 
+def fixed():
+    """macro forms that wrap unsafe blocks, evaluated in const context (seed independent)"""
+    out = []
+    out.append(("(u8, u32, u8, u64)", "{ #[repr(C, packed)] struct P(u8, u32, u8, u64); konst::destructure!{P(a, b, c, d) = P(1, 2, 3, 4)}; (a, b, c, d) }", True))
+    out.append(("(u8, u64, u16)", "{ #[repr(C, packed)] struct Q { a: u8, b: u64, c: u16 } konst::destructure!{Q{a, b, c} = Q{a: 1, b: 2, c: 3}}; (a, b, c) }", True))
+    out.append(("(u8, u128)", "{ #[repr(packed(2))] struct R(u8, u128); konst::destructure!{R(a, b) = R(7, 1 << 100)}; (a, b) }", True))
+    out.append(("(u32, [u32; 2], u32)", "{ konst::destructure!{[a, rest @ .., z] = [1u32, 2, 3, 4]}; (a, rest, z) }", True))
+    out.append(("(u8, (), u64)", "{ konst::destructure!{(a, b, c) = (1u8, (), 3u64)}; (a, b, c) }", True))
+    out.append(("[u64; 4]", "konst::array::map!([1u8, 2, 3, 4], |x| (x as u64) << 40)", True))
+    out.append(("[u8; 0]", "konst::array::map!([0u64; 0], |x| x as u8)", True))
+    out.append(("[usize; 5]", "konst::array::from_fn!(|i| i * i)", True))
+    out.append(("[u16; 3]", "konst::array::map_!([1u16, 2, 3], |x| x * 3)", True))
+    out.append(("[usize; 4]", "konst::array::from_fn_!(|i| i + 10)", True))
+    out.append(("[u32; 4]", "konst::iter::collect_const!(u32 => 0..10u32, filter(|x| *x % 3 == 0))", True))
+    out.append(("[(usize, &u8); 3]", "konst::iter::collect_const!((usize, &u8) => &[5u8, 6, 7], enumerate())", True))
+    out.append(("&str", "konst::string::from_iter!(&[\"é\", \"\", \"漢\"], flat_map(|s| &[*s, \"-\"]))", True))
+    out.append(("&str", "konst::string::str_concat!(&[\"a\", \"é\", \"😀\"])", True))
+    out.append(("[u8; 3]", "{ let mut b = konst::array::ArrayBuilder::<u8, 3>::new(); b.push(1); b.push(2); b.push(3); b.build() }", True))
+    out.append(("(u8, u8, usize)", "{ let mut c = konst::array::ArrayConsumer::new([1u8, 2, 3]); let a = core::mem::ManuallyDrop::into_inner(c.next().unwrap()); let z = core::mem::ManuallyDrop::into_inner(c.next_back().unwrap()); let n = c.as_slice().len(); core::mem::forget(c); (a, z, n) }", True))
+    return out
+
+
 def block(i, g):
     ty, expr, nt = g
     return "    { const K: %s = %s; let r: %s = %s; if K != r { println!(\"FAIL %d const={:?} runtime={:?}\", K, r); } }" % (ty, expr, ty, expr, i)
@@ -174,7 +196,7 @@ def run(prop, tier, seed, out, timeout, **kw):
     t0 = time.time()
     rng = random.Random(seed * 271 + 1)
     n = 600 if tier == "quick" else 6000
-    gens = [gen(rng) for _ in range(n)]
+    gens = fixed() + [gen(rng) for _ in range(n)]
     violations = []
     per = 600
     evaluations = 0
